@@ -77,6 +77,7 @@ _add("solve cholesky cholesky_solve cholesky_inverse pinv matrix_power matrix_ex
 _add("var_mean std_mean aminmax", "tuple", n=2, red=True)
 _add("lu_factor eigh svd slogdet", "tuple", n=2)
 _add("bucketize searchsorted count_nonzero", "fresh", idx=True)
+_add("unique unique_consecutive topk kthvalue median mode sort", "fresh")
 _add("scatter scatter_add index_add index_copy index_fill masked_fill masked_scatter take take_along_dim where tril triu diag_embed block_diag", "fresh")
 _add("solve_triangular inverse", "fresh")
 _add("argsort argmax argmin nonzero", "fresh", idx=True)
